@@ -124,6 +124,11 @@ CHECK_DEADLOCK FALSE
             for lq in sorted({sMax - 4, sMax - 3, sMax + 60, oldMax - 4, oldMax - 3, 2 * min(sMax, oldMax) + 7}):
                 cases.append(dict(cSeg="segmentedBoth", cMax=1476, cSegs=0, cPW=2, sSeg="segmentedBoth", sMax=sMax, sSegs=0, sPW=2,
                                   known=True, lq=lq, lr=5, reann={"max": oldMax, "when": when}))
+    # ... and a server that moved to an address the client knows another device by
+    for oldMax, sMax in ((1476, 50), (50, 480), (1024, 128)):
+        for lq in sorted({sMax - 4, sMax - 3, sMax + 60, oldMax - 4, 2 * min(sMax, oldMax) + 7}):
+            cases.append(dict(cSeg="segmentedBoth", cMax=1476, cSegs=0, cPW=2, sSeg="noSegmentation" if sMax == 50 else "segmentedBoth", sMax=sMax,
+                              sSegs=0, sPW=2, known=True, lq=lq, lr=5, reann={"max": oldMax, "seg": "segmentedBoth", "how": "moved"}))
     for oldSeg, sSeg in (("segmentedBoth", "noSegmentation"), ("noSegmentation", "segmentedBoth"), ("segmentedBoth", "segmentedTransmit")):
         for when in ("during", "after"):
             for lq in (40, 200):
